@@ -436,8 +436,9 @@ def agree(c, got, exp):
         if got.get("later") and c.get("viol"):
             n = LINES.get(c["fmt"], 1)
             true_lines = {i * n + d for i, _ in c["viol"] for d in range(n)}
-            if any(l not in true_lines for l in got["later"]):
-                return False    # after a reported error the reader went on and named a line that holds no violation
+            seq = [got["line"]] + list(got["later"])
+            if any(l not in true_lines for l in got["later"]) or any(b <= a for a, b in zip(seq, seq[1:])):
+                return False    # after a reported error the reader went on and named a line that holds no violation (or went backwards)
         return exp["line_lo"] <= got["line"] <= exp["line_hi"]
     return True
 
@@ -491,13 +492,13 @@ def finding_key(c, got, exp):
         return "custom-header-format:" + ("after-reading-another-table-type" if c["first"] else "single") + (":yields-table" if isinstance(got, dict) and "table" in got else ":wrong-line")
     if c["op"] != "read":
         return c["op"]
-    if c["kind"] == "multi" and c["fmt"] not in LINES and isinstance(got, dict) and got.get("err") == "format" \
-            and got["line"] in [i for i, _ in c["viol"]]:
-        return "multi:delimited-cross-column:later-violation-named"
     if isinstance(got, dict) and "lost" in got:
         return "exception:line-number-lost-by-" + got["lost"].split(":")[0]
     if isinstance(got, dict) and got.get("later") and c.get("via") == "read_on":
         return "read-on-after-error:later-line-wrong"
+    if c["kind"] == "multi" and c["fmt"] not in LINES and isinstance(got, dict) and got.get("err") == "format" \
+            and got["line"] in [i for i, _ in c["viol"]]:
+        return "multi:delimited-cross-column:later-violation-named"
     if isinstance(got, dict) and "table" in got:
         if c["kind"].startswith("ncols"):
             return "ncols:mixed-in-one-chunk" if _chunk_mixed(c) else "ncols:chunk-local-uniform"
